@@ -11,7 +11,7 @@ from vpkit import common, zoo
 
 ID = "C04"
 N = {"quick": 200, "thorough": 5000}
-BUDGET = {"quick": 240.0, "thorough": 1200.0}
+BUDGET = {"quick": 240.0, "thorough": 700.0}
 RULE = ("case = (zoo input with metadata none / permissive JSON / struct(mn,vr doubles), method, "
         "set_metadata in {None, True}, phasing); distinct by (topology hash, metadata kind, method, "
         "options); non-trivial = date() returned a fit and every row was compared")
